@@ -55,6 +55,8 @@ pub fn load_known() -> KnownFindings {
 
 impl KnownFindings {
     pub fn matches(&self, prop: &str, class: &str) -> Option<&Finding> {
+        // the same finding observed on real threads carries the suffix "-uncontrolled"
+        let class = class.trim_end_matches("-uncontrolled");
         self.findings
             .iter()
             .find(|f| f.status == "open" && f.class == class && f.properties.iter().any(|p| p == prop))
